@@ -181,3 +181,7 @@ LEVEL_NOTE = ("Trusted: Lean kernel; axioms propext/Classical.choice/Quot.sound;
               "(% and *); the windowed multi-word exponentiation loop is mirrored and executed against the spec but its refinement "
               "theorem is not yet proved; Lehmer-based inverse of multi-word rings is specified by the mirrored extended Euclid.")
 TECHNIQUE = "Lean 4 refinement proofs (value-level model of the pre-shifted residue representation) + differential correspondence model vs real code"
+THEOREMS = ["Dashu.Props.C13." + t for t in ["new_spec", "reduce_spec", "ops_closed", "hom_add", "hom_sub", "hom_mul", "hom_neg", "hom_dbl",
+            "hom_sqr", "hom_pow_word_rings", "hom_pow_large_partial", "inv_spec", "div_spec", "different_rings",
+            "different_instances_same_modulus", "reducer_ops", "one_asIs_counterexample", "reducer_add_asIs_counterexample"]]
+READY = True
